@@ -8,6 +8,7 @@
 package main
 
 import (
+	"context"
 	"fmt"
 	"math/rand/v2"
 	"sort"
@@ -108,10 +109,53 @@ func runHistory(run *evid.Run, rng *rand.Rand, h int, immutable, large bool, nOp
 			}
 		}
 	}
+	// afterlife: once a session is finished (committed or cancelled) the caller goes on using the writer and
+	// the upload id the way callers do - Cancel in a defer, Close, more data, a resume of the id - but never
+	// commits again. Whatever those calls answer is nobody's business; the registry's content stays what the
+	// model says (the snapshots below read all of it).
+	arng := run.Rand(77, uint64(h))
+	afterlife := func(hd int) {
+		if hd < 0 || hd >= len(env.Writers) || env.Writers[hd] == nil {
+			return
+		}
+		w := env.Writers[hd]
+		run.Count("session_afterlives", 1)
+		run.Case("total/afterlife", map[string]any{"history": h}, func() {
+			for k, n := 0, 1+arng.IntN(4); k < n; k++ {
+				switch arng.IntN(4) {
+				case 0:
+					w.Cancel()
+				case 1:
+					w.Close()
+				case 2:
+					w.Write([]byte("written after the end"))
+				case 3:
+					s := m.SessionOf(hd)
+					if s == nil || hd >= len(env.IDs) || env.IDs[hd] == "" {
+						continue
+					}
+					off := []int64{-1, 0, w.Size()}[arng.IntN(3)]
+					if w2, err := reg.PushBlobChunkedResume(context.Background(), s.Repo, env.IDs[hd], off, 0); err == nil {
+						w2.Write([]byte("XXXXXXXXXXXX"))
+						if arng.IntN(2) == 0 {
+							w2.Cancel()
+						} else {
+							w2.Close()
+						}
+					}
+				}
+			}
+		})
+	}
 	for i := 0; i < nOps; i++ {
 		op := u.GenOp(rng, m, opts)
 		if !exec(op) {
 			return
+		}
+		if (op.Kind == "W.Commit" || op.Kind == "W.Cancel") && h%2 == 0 && arng.IntN(2) == 0 {
+			if s := m.SessionOf(op.H); s != nil && s.Dead {
+				afterlife(op.H)
+			}
 		}
 		run.Distinct(m.Hash())
 		if i%8 == 7 || i == nOps-1 {
